@@ -483,13 +483,20 @@ def check_c08(ctx, R):
                     and a.value.id in cvars and a.targets[0].id not in cvars:
                 cvars.add(a.targets[0].id)
                 grew = True
+    # the instance is whatever gets the clone as its reference (the parameter of a dedicated helper, or the work-list variable when the
+    # cloning is written into the walk itself: `inst.reference = _make_unique_copy(inst.reference)`)
+    rp_ = [a for a in walk_local(mk.node) if isinstance(a, ast.Assign) and len(a.targets) == 1 and isinstance(a.targets[0], ast.Attribute)
+           and a.targets[0].attr == "reference" and norm(a.value) in cvars]
+    if rp_ and isinstance(rp_[0].targets[0].value, ast.Name):
+        inst = rp_[0].targets[0].value.id
+    made = cl[0]  # the obligations arise where the clone is made: from there every way out re-points the instance and places the clone
     repoint = [a for a in walk_local(mk.node) if isinstance(a, ast.Assign) and norm(a.targets[0]) == "%s.reference" % inst]
     adds = _calls(mk.node, lambda c: _is_method(c, "add_definition") and c.args and norm(c.args[0]) in cvars)
     if not repoint or any(norm(a.value) not in cvars for a in repoint):
         R.bad("U1", "%s|re-point" % mk.key, mk.loc(repoint[0] if repoint else None),
               "%s does not assign the clone `%s` to `%s.reference`: the instance keeps sharing its definition (or is pointed at something else)" % (mk.qualname, cvar, inst))
     else:
-        cfg, st = _must(mk, lambda n: n.ast is repoint[0])
+        cfg, st = _must(mk, lambda n: n.ast is repoint[0], kill=lambda n: n.ast is made, init=True)
         if st.get(cfg.exit.id):
             R.ok("U1", "%s re-points `%s` to the clone on every path" % (mk.qualname, inst), mk.loc(repoint[0]))
         else:
@@ -501,7 +508,7 @@ def check_c08(ctx, R):
         add = adds[0]
         lib = add.func.value
         st_add = _stmt_of(add)
-        cfg, st = _must(mk, lambda n: n.ast is st_add)
+        cfg, st = _must(mk, lambda n: n.ast is st_add, kill=lambda n: n.ast is made, init=True)
         if not st.get(cfg.exit.id):
             R.bad("U1", "%s|placement path" % mk.key, mk.loc(add), "%s: a path reaches the end without adding the clone to a library" % mk.qualname)
         # the library is the ORIGINAL reference's: read from `<inst>.reference...library` before the re-point (afterwards the same
@@ -571,7 +578,9 @@ def check_c08(ctx, R):
         else:
             R.bad("U2", "%s|identifier" % mk.key, mk.loc(a), "%s sets the clone's EDIF.identifier to `%s`, not the original identifier plus a fresh suffix" % (mk.qualname, short(a.value, 50)))
     # ---- U3 / U4
-    entry = _canon(P, entry, keep=tuple(counters0) + (mk.name,) + tuple(fn for fn in mod.functions if fn != "uniquify" and any(
+    # (when the cloning is part of the walk itself, the helpers that make the clone are read in place here as well)
+    in_mk = {h_.split(".")[-1] for h_ in getattr(mk, "inlined_helpers", ())} if mk.key == entry.key else set()
+    entry = _canon(P, entry, keep=tuple(counters0) + (mk.name,) + tuple(fn for fn in mod.functions if fn != "uniquify" and fn not in in_mk and any(
         isinstance(x, ast.Return) and x.value is not None for x in walk_local(mod.functions[fn].node))))
     w, pops = _work_loop(entry)
     if w is None:
@@ -605,6 +614,9 @@ def check_c08(ctx, R):
     else:
         R.bad("U3", "%s|seed" % entry.key, entry.loc(w), "uniquify does not seed its queue with every child of `netlist.top_instance.reference`: part of the hierarchy is never visited")
     mk_calls = _calls(w, lambda c: isinstance(c.func, ast.Name) and c.func.id == mk.name and c.args and norm(c.args[0]) == var)
+    if not mk_calls and mk.key == entry.key:
+        # the cloning is written into the walk itself: the place where the clone is made stands for the call
+        mk_calls = [c for c in _calls(w, lambda c: _is_method(c, "clone"))][:1]
     child_loops = [lp for lp in walk_local(w) if isinstance(lp, ast.For) and norm(lp.iter) == "%s.reference.children" % var
                    and _calls(lp, lambda c: _is_method(c, "append") and norm(c.func.value) == queue and c.args and norm(c.args[0]) == norm(lp.target))]
     if not child_loops:
@@ -770,17 +782,46 @@ def check_c09(ctx, R):
     counters0 = _counter_functions(mod)
     views = {fn: _canon(P, f, keep=tuple(counters0)) for fn, f in mod.functions.items() if fn != "flatten"}
     # which queue carries instances: the one whose variable is handed to the mover as first argument
-    movers = [f for f in views.values() if len(f.params) == 3 and _calls(f.node, lambda c: _is_method(c, "add_child")) and _calls(f.node, lambda c: _is_method(c, "add_cable"))]
+    def arity(f):
+        a_ = f.node.args
+        return len(a_.posonlyargs) + len(a_.args) + len(a_.kwonlyargs)
+    movers = [f for f in views.values() if arity(f) == 3 and _calls(f.node, lambda c: _is_method(c, "add_child")) and _calls(f.node, lambda c: _is_method(c, "add_cable"))]
     if len(movers) != 1:
         raise AnalysisError("anchor vanished: the function of flatten.py that moves an instance or a cable to the top (%d candidates)" % len(movers))
     mv = movers[0]
+    # the roles of the mover's three parameters, read from its body (the signature may be reordered or partly keyword-only): the element is
+    # what is added, the top definition is what it is added to, the remaining one is the path prefix
+    all3 = [x.arg for x in mv.node.args.posonlyargs + mv.node.args.args + mv.node.args.kwonlyargs]
+    addc_ = _calls(mv.node, lambda c: _is_method(c, "add_child") and c.args)
+    mv_roles = None
+    if addc_ and norm(addc_[0].args[0]) in all3 and norm(addc_[0].func.value) in all3:
+        e_, top_ = norm(addc_[0].args[0]), norm(addc_[0].func.value)
+        rest_ = [x for x in all3 if x not in (e_, top_)]
+        if len(rest_) == 1:
+            mv_roles = (e_, rest_[0], top_)
+    if mv_roles is None:
+        mv_roles = tuple(all3)
+
+    def mover_args(c):
+        """the call's arguments in the order (element, prefix, top definition), whatever the order and the passing style"""
+        pos = [x.arg for x in mv.node.args.posonlyargs + mv.node.args.args]
+        m_ = dict(zip(pos, c.args))
+        for k_ in c.keywords:
+            if k_.arg:
+                m_[k_.arg] = k_.value
+        return [m_.get(r_) for r_ in mv_roles]
     redo0 = [f for f in views.values() if len(f.params) == 2 and _calls(f.node, lambda c: _is_method(c, "disconnect_pin")) and _calls(f.node, lambda c: _is_method(c, "connect_pin"))]
     entry = _canon(P, entry, keep=tuple(counters0) + (mv.name,) + tuple(r.name for r in redo0))
     w, pops = _work_loop(entry)
     if w is None or len(pops) < 2:
         raise AnalysisError("anchor vanished: the work loop of flatten() with its two queues")
     (iq, ivar, ipop), (nq, nvar, npop) = pops[0], pops[1]
-    first_mv = [c for c in _calls(w, lambda c: isinstance(c.func, ast.Name) and c.func.id == mv.name and len(c.args) == 3)]
+    first_mv = [c for c in _calls(w, lambda c: isinstance(c.func, ast.Name) and c.func.id == mv.name and len(c.args) + len(c.keywords) == 3)]
+    # from here on the calls are read in canonical order
+    for c_ in first_mv:
+        ordered = mover_args(c_)
+        if all(x is not None for x in ordered):
+            c_.args, c_.keywords = ordered, []
     if first_mv and norm(first_mv[0].args[0]) == nvar:
         (iq, ivar, ipop), (nq, nvar, npop) = (nq, nvar, npop), (iq, ivar, ipop)
     # ---- F1
@@ -850,7 +891,7 @@ def check_c09(ctx, R):
                           "children are queued with `%s`%s: a child's prefix has to be its parent's full path, i.e. `%s.name` read after the parent was renamed by the move"
                           % (norm(c.args[0]), "" if _pos(lp) > _pos(c0) else " read before the parent was moved", ivar))
     # ---- F2: the mover
-    e, pfx, top = mv.params
+    e, pfx, top = mv_roles
     cfgm = cfg_of(mv.node)
     for kind, rem, add in (("Cable", "remove_cable", "add_cable"), ("Instance", "remove_child", "add_child")):
         rems = _calls(mv.node, lambda c: _is_method(c, rem) and c.args and norm(c.args[0]) == e)
@@ -924,7 +965,7 @@ def check_c09(ctx, R):
         raise AnalysisError("anchor vanished: the function of flatten.py that merges the nets on both sides of a port (%d candidates)" % len(redo))
     rd = redo[0]
     port_loops = [lp for lp in walk_local(w) if isinstance(lp, ast.For) and norm(lp.iter) == "%s.reference.ports" % ivar
-                  and _calls(lp, lambda c: isinstance(c.func, ast.Name) and c.func.id == rd.name and [norm(a) for a in c.args] == [ivar, norm(lp.target)])]
+                  and _calls(lp, lambda c: isinstance(c.func, ast.Name) and c.func.id == rd.name and [norm(a) for a in c.args] in ([ivar, norm(lp.target)], [ivar, norm(lp.target) + ".pins"]))]
     if port_loops and not any(isinstance(x, (ast.If, ast.Break, ast.Continue)) for lp in port_loops for st in lp.body for x in ast.walk(st)):
         R.ok("F3", "the connections of every port of a hierarchical instance are redone", entry.loc(port_loops[0]))
     else:
@@ -951,6 +992,12 @@ def check_c09(ctx, R):
                   "final removal loop: %s): hierarchy remains, or a leaf is deleted" % (st_sh in w.body and not later_exit, bool(leaf_exit), bool(final)))
     # ---- F4
     pin_loops = [lp for lp in walk_local(rd.node) if isinstance(lp, ast.For) and norm(lp.iter) == "%s.pins" % rd.params[1]]
+    if not pin_loops:
+        # the caller may hand over the pins themselves: `_redo_connections(inst, port.pins)` … `for pin in port_pins:`
+        handed = [c for c in walk_local(entry.node) if isinstance(c, ast.Call) and isinstance(c.func, ast.Name) and c.func.id == rd.name and len(c.args) == 2
+                  and isinstance(c.args[1], ast.Attribute) and c.args[1].attr == "pins"]
+        if handed:
+            pin_loops = [lp for lp in walk_local(rd.node) if isinstance(lp, ast.For) and norm(lp.iter) == rd.params[1]]
     if not pin_loops:
         raise AnalysisError("anchor vanished: the loop over the port's pins in %s" % rd.qualname)
     pl = pin_loops[0]
